@@ -114,7 +114,7 @@ Section Ghost.
   Definition R_g (_ : unit) (c1 c2 : dcur) : Prop := c2 = erase_cur c1.
   Definition RT_g (_ : unit) (v1 : bval) (c1 : dcur) (v2 : bval) (c2 : dcur) : Prop :=
     v2 = erase_val v1 /\ c2 = erase_cur c1.
-  Notation AR := (act_rel (ops_doc cfg) (ops_doc cfg) R_g (fun _ => True) (fun _ _ => True)).
+  Notation AR := (act_rel (ops_doc cfg) (ops_doc cfg) R_g (fun _ => True) (fun _ _ => True) (fun (_ : hint) (a b : prim) => a = b)).
 
   Lemma erase_obj fs g : erase_val (VObj fs g) = VObj (erase_fields fs) false.
   Proof. reflexivity. Qed.
@@ -160,7 +160,7 @@ Section Ghost.
       intros sub1' sub2' _ _. cbn [snd p_map_exit ops_doc]. apply sim_ok. reflexivity.
   Qed.
 
-  Theorem ghost_ops_sim : ops_sim (ops_doc cfg) (ops_doc cfg) R_g RT_g (fun _ => True) (fun _ _ => True).
+  Theorem ghost_ops_sim : ops_sim (c_fops cfg) (ops_doc cfg) (ops_doc cfg) R_g RT_g (fun _ => True) (fun _ _ => True) (fun (_ : hint) (a b : prim) => a = b).
   Proof.
     constructor.
     - intros. apply ghost_H_disp. assumption.
@@ -171,6 +171,9 @@ Section Ghost.
     - intros u c1 c2 ->. destruct c1 as [?|fs g [v|]|]; cbn [erase_cur option_map p_next_value ops_doc doc_next_value];
         try (left; reflexivity); apply sim_ok; cbn [fst snd]; repeat split.
     - reflexivity.
+    - intros; subst; reflexivity.
+    - intros; subst; reflexivity.
+    - intros; subst; reflexivity.
   Qed.
 
   Theorem ghost_skipped_spec fuel sh fs g :
@@ -178,7 +181,7 @@ Section Ghost.
     spec_value cfg fuel sh fs g = spec_value cfg fuel sh (erase_fields fs) false.
   Proof.
     intros N. apply sim_eq_result; [|exact N]. unfold spec_value.
-    apply (walk_root_sim (c_fops cfg) (ops_doc cfg) (ops_doc cfg) R_g RT_g (fun _ => True) (fun _ _ => True) ghost_ops_sim fuel tt).
+    apply (walk_root_sim (c_fops cfg) (ops_doc cfg) (ops_doc cfg) R_g RT_g (fun _ => True) (fun _ _ => True) (fun (_ : hint) (a b : prim) => a = b) ghost_ops_sim fuel tt).
     - exact I.
     - reflexivity.
   Qed.
